@@ -929,12 +929,86 @@ func (s *sim) adversary(alphabet []int64) {
 		if verifrt.Intn("a", 8) == 7 {
 			v1 = 0 // the empty value
 		}
-		mv := verifrt.Intn("a", 17)
-		if mv >= 14 {
+		if verifrt.Intn("a", 6) == 5 {
+			v1 = pick("a", []int64{99, 105}) // a value that is no honest member's input (one per comparator class)
+		}
+		mv := verifrt.Intn("a", 20)
+		if mv >= 16 {
 			mv = 11 // the stale-certificate move is cheap when its precondition fails: try it often
 		}
 		switch mv {
 		case 0: // silence
+		case 14: // relayed quorum: wait until honest members have voted (PREPARE or COMMIT) for the value of
+			// the current round, then vote for ANOTHER value carrying those genuine votes as justification,
+			// so that they reach a member inside the Byzantine message before they arrive directly
+			typ := pick("a", []qbft.MsgType{qbft.MsgPrepare, qbft.MsgCommit})
+			need := s.q - 1
+			if verifrt.Intn("a", 3) == 0 {
+				need = s.q - len(byz)
+			}
+			var grp []msg
+			for k := 0; k < 150 && s.ctx.Err() == nil && grp == nil; k++ {
+				r := s.maxRound()
+				by := map[int64][]msg{}
+				for _, m := range s.observed(func(m msg) bool { return m.typ == typ && m.round == r }) {
+					by[m.val] = append(by[m.val], m)
+				}
+				for _, a := range alphabet {
+					if len(by[a]) >= need {
+						grp = by[a]
+					}
+				}
+				if grp == nil {
+					verifrt.Sleep(4 * time.Millisecond)
+				}
+			}
+			if grp == nil {
+				break
+			}
+			x := v1
+			if x == grp[0].val || x == 0 {
+				x = pick("a", []int64{99, 105})
+			}
+			for _, bb := range byz {
+				m := s.forged(typ, bb, grp[0].round, x, 0, 0, toM(grp))
+				for _, to := range honest {
+					if !s.byz[to] {
+						verifrt.Fault("byz:" + m.typ.String())
+						verifrt.Note("adv -> m%d %v (relayed quorum)", to, m)
+						s.deliver(to, m, time.Duration(verifrt.Intn("a", 3))*time.Millisecond)
+					}
+				}
+			}
+			verifrt.Probe("adv:relayed-quorum")
+		case 15: // proposal by a member that is not the leader of the round (with and without a round-change
+			// justification), followed by the Byzantine votes for it
+			for r := maxR; r <= maxR+1; r++ {
+				var nl []int64
+				for _, bb := range byz {
+					if s.leader(r) != bb {
+						nl = append(nl, bb)
+					}
+				}
+				if len(nl) == 0 {
+					continue
+				}
+				src := pick("a", nl)
+				var j []M
+				if r > 1 && verifrt.Intn("a", 2) == 0 {
+					j = s.qrc(r, verifrt.Intn("a", 2) == 0, true)
+				}
+				pp := s.forged(qbft.MsgPrePrepare, src, r, v1, 0, 0, j)
+				for _, to := range honest {
+					s.advSend(to, pp)
+				}
+				for _, bb := range byz {
+					for _, to := range honest {
+						s.advSend(to, s.forged(qbft.MsgPrepare, bb, r, v1, 0, 0, nil))
+						s.advSend(to, s.forged(qbft.MsgCommit, bb, r, v1, 0, 0, nil))
+					}
+				}
+				verifrt.Probe("adv:non-leader-proposal")
+			}
 		case 1: // equivocating leader (current or future round, forged round-change justification)
 			for r := int64(1); r <= maxR+2; r++ {
 				if !s.byz[s.leader(r)] {
